@@ -7,7 +7,7 @@ open IceModel.AgentCore IceProofs.Agent IceProofs.AgentC06
 
 theorem equal_addr {x y : Cand} (h : x.equal y = true) : x.addr = y.addr := by
   simp only [Cand.equal, Cand.taEqual, Bool.and_eq_true, beq_iff_eq] at h
-  exact h.1.1.2
+  exact h.1.1.1.2
 
 /-- the pair `findPair l r` finds has the addresses of `l` and `r` -/
 theorem findPair_addrs {a : Agent} (hi : Inv a) {l r : Cand} {p : Pair} (h : a.findPair l r = some p) :
